@@ -55,7 +55,17 @@ def run(ctx, prog):
             if p.kind != 'return':
                 return 'panic ' + p.msg
             if not (isinstance(p.val, VAgg) and p.val.variant == 'Some'):
-                return None
+                # nothing is returned exactly when the sum leaves the range: the date arithmetic itself gave up, or the gate refused
+                # its result - no other way to None (an early return on "long" durations, a stricter pre-check)
+                if isinstance(p.val, VAgg) and p.val.variant == 'None':
+                    gave_up = [c for c in p.find_calls(r'OffsetDateTime::%s$' % nm) if p.took(c, 'None')]
+                    refused = [c for c in p.find_calls(r'Timestamp::from_unix$') if p.took(c, 'Err')]
+                    if not gave_up and not refused:
+                        return 'None returned although neither the date arithmetic nor the range gate refused'
+                    return None
+                # opaque result (and_then / map of the callee's Option): it has to be built from the arithmetic's own result
+                t = p.term()
+                return None if apps(t, r'OffsetDateTime::%s$' % nm) else 'result does not derive from self.0.%s(duration.0)' % nm
             ca = [c for c in p.find_calls(r'OffsetDateTime::%s$' % nm) if p.took(c, 'Some')]
             if not ca or not (mentions(ca[0].args[0], r'^self$') and mentions(ca[0].args[1], r'^duration$')):
                 return '%s not computed as self.0.%s(duration.0)' % (nm, nm)
